@@ -185,9 +185,13 @@ def wire_strategy(draw, cls: type, depth: int = 3, all_aliases: bool = False, ex
         obj["values"] = obj["values"][:100]
     if extras and depth > 0 and draw(st.integers(0, 2)) == 0:
         taken = {f["wire"] for f in fs} | {f["name"] for f in fs}
-        for k in draw(st.lists(st.sampled_from(["x-extra", "vendor", "futureField", "é", "extra_"]), max_size=2, unique=True)):
+        # unknown members: vendor extensions of every spelling, and `_meta`, which the MCP schema reserves on every object
+        for k in draw(st.lists(st.sampled_from(["x-extra", "vendor", "futureField", "é", "extra_", "_meta", "_meta", "_x", "__dunder__", "$schema", "snake_case", "0", "with space"]), max_size=2, unique=True)):
             if k not in taken:
-                obj[k] = draw(st.one_of(st.integers(0, 5), json_text, st.just({"n": [1, None]}), st.booleans()))
+                if k == "_meta":
+                    obj[k] = draw(st.sampled_from([{"progressToken": "tok-1"}, {"vendor.example/x": 1}, {}]))
+                else:
+                    obj[k] = draw(st.one_of(st.integers(0, 5), json_text, st.just({"n": [1, None]}), st.booleans()))
     return obj
 
 
